@@ -691,9 +691,9 @@ func c13Attempt(env *c13Env, seed int64, sc c13Scenario, x *explore.Exec, tape *
 	if r.rd != nil {
 		// same wrapping as buildProxy does for ProxyCfg.Redis, with the guard in between and the
 		// real client closed when the execution ends (thousands of proxies per process)
-		m, ok := r.px.P.sessionStore.(*persistence.Manager)
+		m, ok := verifSessionStore(r.px.P).(*persistence.Manager)
 		if !ok {
-			panic(fmt.Sprintf("redis store is not a persistence.Manager: %T", r.px.P.sessionStore))
+			panic(fmt.Sprintf("redis store is not a persistence.Manager: %T", verifSessionStore(r.px.P)))
 		}
 		rs, ok := m.Store.(*redisstore.SessionStore)
 		if !ok {
